@@ -84,6 +84,21 @@ def run(tier, rng, C):
         cases.append({'id': cid, 'line': G.inv_line(cid, inv, G.op_node('n1')), 'show': G.show_inv(inv, 'node n1'),
                       'nontrivial': True, 'role': 'base'})
 
+    # an existing class whose document cannot be loaded is an error under every setting, never skipped
+    for i in range(40 if tier == 'quick' else 1500):
+        inv = G.Inv()
+        inv.ignore = rng.random() < 0.8
+        inv.patterns = rng.choice([['.*'], ['^bro'], ['^nope$']])
+        inv.classes[('good.yml',)] = G.doc([], ['g'], ('m', [(S('trace'), L(S('good')))]))
+        inv.classes[('broken.yml',)] = rng.choice([('m', [(S('parameters'), L(M(('a', I(1)))))]), ('m', [(S('classes'), M(('a', I(1))))]),
+                                                   L(I(1)), ('raw', 'parameters: [unclosed'), ('m', [(S('parameters'), M(('=a', I(1)), ('a', I(2))))])])
+        inv.classes[('mid.yml',)] = G.doc(['broken'], [], ('m', [(S('trace'), L(S('mid')))]))
+        inv.nodes[('n1.yml',)] = G.doc(rng.choice([['good', 'broken', 'missing'], ['good', 'mid'], ['missing', 'broken']]), [], ('m', []))
+        inv.universe.update(['good', 'broken', 'mid', 'missing'])
+        cid = C.case_id('u', i)
+        cases.append({'id': cid, 'line': G.inv_line(cid, inv, G.op_node('n1')), 'show': G.show_inv(inv, 'node n1'),
+                      'nontrivial': True, 'role': 'base'})
+
     def split_obs(o):
         """ok <meta> A <apps> C <classes> P <params> -> (apps, classes, params) text"""
         body = o.split(' A ', 1)[1]
